@@ -254,6 +254,9 @@ def _test_context(prog: Program, call: ast.Call):
         if isinstance(p, (ast.BoolOp,)) or (isinstance(p, ast.UnaryOp) and isinstance(p.op, ast.Not)):
             child = p
             continue
+        if isinstance(p, ast.Call) and len(p.args) == 1 and p.args[0] is child and not p.keywords and ast.unparse(p.func) in ("np.any", "np.all", "any", "all", "bool"):
+            child = p  # a reduction of the helper's (mask-valued) result
+            continue
         if isinstance(p, (ast.While, ast.If)) and p.test is child:
             return p
         return None
@@ -378,8 +381,10 @@ def _candidates(prog: Program):
     plan = []
     for f, sites in graph_sites.items():
         nm = f.name
-        if not nm.startswith("_") or (nm.startswith("__") and nm.endswith("__")):
+        if nm.startswith("__") and nm.endswith("__"):
             continue
+        # (a helper without a leading underscore is inlined as well when it is new with respect to the reference tree and
+        # every reference to its name in the package is a resolved call: for the analysis it is an internal helper)
         if nm in lits or nm in known_names or body_hash(f.node) in known_bodies or f in anchors:
             continue  # a function of the reference tree (possibly renamed): the rules may be anchored in it
         # (a *new* helper is inlined even when role discovery, run on the un-normalised tree, picked it - e.g. the loop
@@ -425,10 +430,18 @@ def _candidates(prog: Program):
                 tc = _test_context(prog, call)
                 from .aggregates import _same_object_each_time
 
-                if tc is not None and _helper_as_expression(body, True) is not None and all(
-                        _same_object_each_time(a_) for a_ in list(call.args) + [k_.value for k_ in call.keywords]):
-                    ctxs.append((tc, "exprsubst"))
-                    continue
+                hexpr = _helper_as_expression(body, True) if tc is not None else None
+                if hexpr is not None:
+                    args_ = list(call.args) + [k_.value for k_ in call.keywords]
+                    pnames = [a_.arg for a_ in f.node.args.args if a_.arg != "self"]
+                    uses_ = [n_.id for n_ in ast.walk(hexpr) if isinstance(n_, ast.Name) and n_.id in pnames]
+                    single_call = sorted(uses_) == sorted(pnames) and all(
+                        any(isinstance(x_, ast.Name) and x_.id in pnames for x_ in ast.walk(n_)) for n_ in ast.walk(hexpr) if isinstance(n_, ast.Call))
+                    # arguments are evaluated where the parameters stand: fine for plain references, and for arbitrary
+                    # arguments when every call in the helper's expression wraps a parameter and every parameter is used exactly once
+                    if all(_same_object_each_time(a_) for a_ in args_) or single_call:
+                        ctxs.append((tc, "exprsubst"))
+                        continue
             if sc is None or _block_of(prog, sc[0]) is None:
                 ok = False
                 break
@@ -1056,9 +1069,10 @@ def unroll_built_list_loops(fn_node) -> int:
     from .aggregates import _read_only, _same_object_each_time
 
     def elem_ok(e):
+        # read-only expressions that are not plain references are bound to a temporary of their copy
         if isinstance(e, ast.Tuple):
-            return all(_same_object_each_time(x) for x in e.elts)
-        return _same_object_each_time(e)
+            return all(_same_object_each_time(x) or _read_only(x) for x in e.elts)
+        return _same_object_each_time(e) or _read_only(e)
 
     count = 0
     for node in ast.walk(fn_node):
@@ -1067,21 +1081,40 @@ def unroll_built_list_loops(fn_node) -> int:
             if not (isinstance(blk, list) and blk and isinstance(blk[0], ast.stmt)):
                 continue
             for li, loop in enumerate(blk):
-                if not (isinstance(loop, ast.For) and not loop.orelse and isinstance(loop.iter, ast.Name)):
+                if not (isinstance(loop, ast.For) and not loop.orelse):
                     continue
-                L = loop.iter.id
+                is_dict = False
+                if isinstance(loop.iter, ast.Name):
+                    L = loop.iter.id
+                elif isinstance(loop.iter, ast.Call) and isinstance(loop.iter.func, ast.Attribute) and loop.iter.func.attr == "items" and not loop.iter.args \
+                        and isinstance(loop.iter.func.value, ast.Name):
+                    L, is_dict = loop.iter.func.value.id, True  # for k, v in D.items() with D built from literals
+                else:
+                    continue
                 occ = [n for n in ast.walk(fn_node) if isinstance(n, ast.Name) and n.id == L]
                 # find the literal definition in this block before the loop
                 di = next((i for i in range(li) if isinstance(blk[i], ast.Assign) and len(blk[i].targets) == 1 and isinstance(blk[i].targets[0], ast.Name)
-                           and blk[i].targets[0].id == L and isinstance(blk[i].value, ast.List)), None)
+                           and blk[i].targets[0].id == L and isinstance(blk[i].value, ast.Dict if is_dict else ast.List)), None)
                 if di is None:
                     continue
-                segments = [(None, list(blk[di].value.elts))]
+                if is_dict:
+                    dv = blk[di].value
+                    if not all(isinstance(k_, ast.Constant) for k_ in dv.keys):
+                        continue
+                    segments = [(None, [ast.Tuple(elts=[k_, v_], ctx=ast.Load()) for k_, v_ in zip(dv.keys, dv.values)])]
+                else:
+                    segments = [(None, list(blk[di].value.elts))]
                 used = 2  # the definition and the loop's iter
                 builders = [blk[di]]
                 ok = True
 
                 def append_of(st):
+                    if is_dict:
+                        # D["key"] = value (a key not yet present keeps insertion order)
+                        if isinstance(st, ast.Assign) and len(st.targets) == 1 and isinstance(st.targets[0], ast.Subscript) and isinstance(st.targets[0].value, ast.Name) \
+                                and st.targets[0].value.id == L and isinstance(st.targets[0].slice, ast.Constant):
+                            return ast.Tuple(elts=[st.targets[0].slice, st.value], ctx=ast.Load())
+                        return None
                     if isinstance(st, ast.Expr) and isinstance(st.value, ast.Call) and isinstance(st.value.func, ast.Attribute) and st.value.func.attr == "append" \
                             and isinstance(st.value.func.value, ast.Name) and st.value.func.value.id == L and len(st.value.args) == 1 and not st.value.keywords:
                         return st.value.args[0]
@@ -1107,6 +1140,8 @@ def unroll_built_list_loops(fn_node) -> int:
                 elems = [e for _c, es in segments for e in es]
                 if not elems or len(elems) > 12 or not all(elem_ok(e) for e in elems):
                     continue
+                if is_dict and len({e.elts[0].value for e in elems}) != len(elems):
+                    continue  # a key assigned twice keeps its first position: not modelled
                 tgt = loop.target
                 if isinstance(tgt, ast.Name):
                     tnames = [tgt.id]
@@ -1151,12 +1186,23 @@ def unroll_built_list_loops(fn_node) -> int:
                 temps = _body_temporaries(fn_node, loop)
                 taken_names = {n.id for n in ast.walk(fn_node) if isinstance(n, ast.Name)}
                 copy_no = 0
+                cond_paths_extra: Set[str] = set()
                 for c, es in segments:
                     chunk = []
                     for e in es:
                         m = {tnames[0]: e} if len(tnames) == 1 else dict(zip(tnames, e.elts))
-                        one = [Sub(m).visit(copy.deepcopy(s_)) for s_ in loop.body]
                         copy_no += 1
+                        pre_b = []
+                        for nm_, ex_ in list(m.items()):
+                            if not _same_object_each_time(ex_):
+                                tmpn = f"{nm_}__u{copy_no}"
+                                while tmpn in taken_names:
+                                    tmpn += "_"
+                                taken_names.add(tmpn)
+                                pre_b.append(ast.copy_location(ast.Assign(targets=[ast.Name(id=tmpn, ctx=ast.Store())], value=copy.deepcopy(ex_)), loop))
+                                m[nm_] = ast.Name(id=tmpn, ctx=ast.Load())
+                                cond_paths_extra.update(ast.unparse(n) for n in ast.walk(ex_) if isinstance(n, (ast.Name, ast.Attribute)))
+                        one = pre_b + [Sub(m).visit(copy.deepcopy(s_)) for s_ in loop.body]
                         if copy_no > 1 and temps:
                             ren = {}
                             for t_ in temps:
@@ -1175,7 +1221,7 @@ def unroll_built_list_loops(fn_node) -> int:
                 static_attr_access(holder)
                 new = holder.body
                 between = [st for st in blk[di + 1:li] if not any(st is b for b in builders)]
-                if cond_paths & (writes(new) | writes(between)):
+                if (cond_paths | cond_paths_extra) & ((writes(new) - {n_ for n_ in writes(new) if "__u" in n_}) | writes(between)):
                     continue
                 keep_before = [st for st in blk[:li] if not any(st is b for b in builders)]
                 blk[:] = keep_before + new + blk[li + 1:]
